@@ -34,9 +34,11 @@ func typedTok(basic string) *absint.Tok {
 // quoteCallback: the literal the placeholder processor hands to ReplaceAllContent.
 func quoteCallback(c *core.Ctx, p *procInfo) *ssa.Function {
 	elReplace := c.IfaceMethod("util/el", "Helper", "ReplaceAllContent")
-	for _, ci := range core.Calls(p.Props) {
-		if core.IsInvoke(ci.Common(), elReplace) {
-			return core.ClosureOf(ci.Common().Args[1])
+	for _, f := range p.Body { // the method first, then the helpers it is split into
+		for _, ci := range core.Calls(f) {
+			if core.IsInvoke(ci.Common(), elReplace) {
+				return core.ClosureOf(ci.Common().Args[1])
+			}
 		}
 	}
 	return nil
@@ -443,7 +445,18 @@ func c16Delimiters(c *core.Ctx, r *core.Report) {
 		default:
 			continue
 		}
-		stores, _ := c.FieldAccesses(p.T, "el")
+		// the helper field(s): of the processor itself, or of an object of its package it keeps its engine in
+		var stores []core.FieldAccess
+		helperT := c.Named("util/el", "Helper")
+		for _, owner := range stateTypes(p.T) {
+			st := core.StructOf(owner)
+			for i := 0; st != nil && i < st.NumFields(); i++ {
+				if helperT != nil && core.NamedOf(st.Field(i).Type()) == helperT {
+					ss, _ := c.FieldAccesses(owner, st.Field(i).Name())
+					stores = append(stores, ss...)
+				}
+			}
+		}
 		ok := len(stores) > 0
 		for _, st := range stores {
 			good := false
